@@ -1,5 +1,6 @@
 import OasisModel.Proto
 import OasisModel.TxPool.Sched
+import OasisModel.TxPool.Impl
 /-
 Driver for the txpool reference model, used as a checker with witness:
 each input line carries the operation *and* what the implementation answered; the model
@@ -12,6 +13,12 @@ checks that the answer is allowed and follows the implementation's choice.
   reset | clear
   used <id> | forward <sender> <seq>
   all <ids sorted>
+  st <max-heap ids sorted> <scheduled: a,q,... by a> <senders: a,seq,k,id1..idk,... by a>
+      the implementation's state after the previous operation; compared with the
+      implementation-level model `Impl` (max heap content, `scheduled`, sender heaps)
+Every operation is executed on the reference model *and*, with the same witnesses, on the
+implementation-level model; the two are compared after every operation (`abs`), and a `Fault`
+outcome of the implementation-level model is a divergence.
 Answers: `ok` or `DIVERGE <detail>`; after a divergence every line is answered `skip`.
 -/
 namespace OasisModel.TxPool.Driver
@@ -19,44 +26,88 @@ open OasisModel.Proto OasisModel.TxPool
 
 structure St where
   s : State
+  /-- implementation-level model, run in lock-step with the reference model -/
+  i : Impl.State
+  /-- sender identifiers seen so far (the `senders` map of `Impl` is a function) -/
+  known : List Nat := []
   dead : Bool := false
 
 def lookupTxs (s : State) (ids : List Nat) : Option (List Tx) :=
   ids.mapM (fun i => findId s i)
 
 def doAdd (q : Bool) (s : State) (t : Tx) (stateSeq : Nat) (res : String) (all : List Nat) :
-    Except String State :=
+    Except String (State × Option Tx) :=
   let s0 := if q then forward s t.sender stateSeq else s
   -- candidates for the evicted transaction: members of pool ∪ {t} absent from the answer
   let cands := (t :: s0.txs).filter (fun u => !all.contains u.id)
-  let tryWith (v : Option Tx) : Except String State :=
+  let tryWith (v : Option Tx) : Except String (State × Option Tx) :=
     match addWith s0 t stateSeq v with
     | none => .error s!"eviction victim {v.map (·.id)} not of minimal priority"
     | some (s', r) =>
       if r.toString != res then .error s!"add result model={r.toString} impl={res}"
       else if allIds s' != all then .error s!"contents model={showNats (allIds s')} impl={showNats all}"
-      else .ok s'
+      else .ok (s', v)
   -- first the deterministic path; on failure each candidate victim
   match tryWith none with
-  | .ok s' => .ok s'
-  | .error e => match cands.filterMap (fun v => match tryWith (some v) with | .ok s' => some s' | _ => none) with
-    | s' :: _ => .ok s'
+  | .ok r => .ok r
+  | .error e => match cands.filterMap (fun v => match tryWith (some v) with | .ok r => some r | _ => none) with
+    | r :: _ => .ok r
     | [] => .error e
+
+def insertNat (a : Nat) : List Nat → List Nat
+  | [] => [a]
+  | b :: bs => if a < b then a :: b :: bs else if a = b then b :: bs else b :: insertNat a bs
+
+/-- Does the implementation-level state stand for the reference state (`Impl.abs`)?  Checked
+on the queue, the capacity, the picks and, for every sender seen so far, the current and the
+last scheduled sequence number; and the max heap content must be the reference ready set. -/
+def agree (known : List Nat) (i : Impl.State) (s : State) : Option String :=
+  if i.txs != s.txs then some "txs" else
+  if i.cap != s.cap then some "cap" else
+  if i.picked != s.picked then some "picked" else
+  if known.any (fun a => (i.senders a).map (·.seq) != s.cur a) then some "sender-seq" else
+  if known.any (fun a => Impl.getSched i.scheduled a != s.sched a) then some "scheduled" else
+  if Impl.sortedIds i.pending != Impl.sortedIds (readyList s) then
+    some s!"max-heap={showNats (Impl.sortedIds i.pending)} ready={showNats (Impl.sortedIds (readyList s))}"
+  else none
+
+def schedFlat (known : List Nat) (i : Impl.State) : List Nat :=
+  known.flatMap (fun a => match Impl.getSched i.scheduled a with | some q => [a, q] | none => [])
+
+def sendersFlat (known : List Nat) (i : Impl.State) : List Nat :=
+  known.flatMap (fun a => match i.senders a with
+    | some r => [a, r.seq, r.txs.length] ++ Impl.sortedIds r.txs
+    | none => [])
 
 def step (st : St) (line : String) : St × String :=
   if st.dead then (st, "skip") else
   let fail (msg : String) : St × String := ({ st with dead := true }, "DIVERGE " ++ msg)
+  -- both models made a step: they must still agree
+  let both (s' : State) (r : Except Impl.Fault Impl.State) (known : List Nat) : St × String :=
+    match r with
+    | .error f => fail s!"impl-model fault {f.toString}"
+    | .ok i' => match agree known i' s' with
+      | some d => fail s!"impl-model does not refine the reference model: {d}"
+      | none => ({ st with s := s', i := i', known := known }, "ok")
   match words line with
   | ["new", c] => match c.toNat? with
-    | some c => ({ s := init c }, "ok")
+    | some c => ({ s := init c, i := Impl.init c }, "ok")
     | none => fail "bad-op"
   | [op, id, a, q, p, ss, res, all] =>
     if op != "add" && op != "qadd" then fail "bad-op" else
     match id.toNat?, a.toNat?, q.toNat?, p.toNat?, ss.toNat?, parseNats all with
     | some id, some a, some q, some p, some ss, some all =>
       if res == "PANIC" then fail "implementation panicked in add" else
-      match doAdd (op == "qadd") st.s { id := id, sender := a, seq := q, prio := p } ss res all with
-      | .ok s' => ({ st with s := s' }, "ok")
+      let t : Tx := { id := id, sender := a, seq := q, prio := p }
+      match doAdd (op == "qadd") st.s t ss res all with
+      | .ok (s', v) =>
+        let r := if op == "qadd" then Impl.queueAdd st.i t ss v else Impl.add st.i t ss v
+        match r with
+        | .error f => fail s!"impl-model fault {f.toString}"
+        | .ok none => fail "impl-model rejects the eviction victim the reference model accepts"
+        | .ok (some (i', ri)) =>
+          if ri.toString != res then fail s!"add result impl-model={ri.toString} impl={res}"
+          else both s' (.ok i') (insertNat a st.known)
       | .error e => fail e
     | _, _, _, _, _, _ => fail "bad-op"
   | ["schedule", lim, ids] =>
@@ -67,28 +118,43 @@ def step (st : St) (line : String) : St × String :=
       | none => fail s!"scheduled a transaction not in the pool: {showNats ids}"
       | some ts =>
         match scheduleOk lim st.s ts with
-        | some s' => ({ st with s := s' }, "ok")
+        | some s' =>
+          match Impl.scheduleOk lim st.i ts with
+          | .error f => fail s!"impl-model fault {f.toString}"
+          | .ok none => fail s!"schedule limit={lim} impl={showNats ids} not allowed by the impl-model; max-heap={showNats (Impl.sortedIds st.i.pending)}"
+          | .ok (some i') => both s' (.ok i') st.known
         | none =>
           let (mts, _) := schedule lim st.s
           fail s!"schedule limit={lim} impl={showNats ids} not allowed; model(det)={showNats (mts.map (·.id))} ready={showNats ((readyList st.s).map (·.id))}"
     | _, _ => fail "bad-op"
-  | ["reset", r] => if r == "PANIC" then fail "implementation panicked in reset" else ({ st with s := reset st.s }, "ok")
-  | ["reset"] => ({ st with s := reset st.s }, "ok")
-  | ["clear"] => ({ st with s := clear st.s }, "ok")
+  | ["reset", r] => if r == "PANIC" then fail "implementation panicked in reset" else fail "bad-op"
+  | ["reset"] => both (reset st.s) (Impl.reset st.i) st.known
+  | ["clear"] => both (clear st.s) (.ok (Impl.clear st.i)) st.known
   | ["used", id] => match id.toNat? with
-    | some id => ({ st with s := txUsed st.s id }, "ok")
+    | some id => both (txUsed st.s id) (Impl.handleTxUsed st.i id) st.known
     | none => fail "bad-op"
   | ["used", _, "PANIC"] => fail "implementation panicked in handleTxUsed"
   | ["forward", a, n] => match a.toNat?, n.toNat? with
-    | some a, some n => ({ st with s := forward st.s a n }, "ok")
+    | some a, some n => both (forward st.s a n) (Impl.forward st.i a n) st.known
     | _, _ => fail "bad-op"
   | ["forward", _, _, "PANIC"] => fail "implementation panicked in forward"
   | ["all", ids] => match parseNats ids with
     | some ids => if allIds st.s == ids then (st, "ok") else fail s!"contents model={showNats (allIds st.s)} impl={showNats ids}"
     | none => fail "bad-op"
+  | ["st", heap, sched, snd] => match parseNats heap, parseNats sched, parseNats snd with
+    | some heap, some sched, some snd =>
+      if Impl.sortedIds st.i.pending != heap then
+        fail s!"state max-heap impl-model={showNats (Impl.sortedIds st.i.pending)} impl={showNats heap}"
+      else if schedFlat st.known st.i != sched then
+        fail s!"state scheduled impl-model={showNats (schedFlat st.known st.i)} impl={showNats sched}"
+      else if sendersFlat st.known st.i != snd then
+        fail s!"state senders impl-model={showNats (sendersFlat st.known st.i)} impl={showNats snd}"
+      else (st, "ok")
+    | _, _, _ => fail "bad-op"
+  | ["st", "BROKEN", _] => fail "state max-heap bookkeeping of the implementation violated"
   | [] => (st, "ok")
   | _ => fail "bad-op"
 
-def main : IO Unit := loop step { s := init 0 }
+def main : IO Unit := loop step { s := init 0, i := Impl.init 0 }
 
 end OasisModel.TxPool.Driver
